@@ -8,7 +8,7 @@ from fractions import Fraction as F
 from . import ref
 
 INTERVALS = [(F(0), F(1)), (F(-1), F(1)), (F(1), F(3)), (F(-2), F(0)), (F(0), F(3)), (F(-3), F(-1, 2))]
-GRIDS = [2, 3, 4, 5, 6, 7, 12, 60]
+GRIDS = [2, 3, 4, 5, 6, 7, 8, 12, 16, 60]
 
 
 def interval(rng):
